@@ -26,7 +26,13 @@ func TokenReader(v interface{}) (xml.TokenReader, error) {
 		return r, nil
 	}
 
-	return tokenDecoder(v)
+	d, err := tokenDecoder(v)
+	if err != nil {
+		return nil, err
+	}
+	// The tokens will be written to an encoder that declares namespaces itself,
+	// so do not pass the declarations of the marshaled value on as attributes.
+	return nsTokenReader{Decoder: d}, nil
 }
 
 func tokenDecoder(v interface{}) (*xml.Decoder, error) {
